@@ -309,3 +309,69 @@ def interceptors_coq(rows):
 
 def intercepts(row):
     return row[3] == "CFinallyReturn" or (row[3] in ("CBare", "CBase", "CSysExit") and not row[4])
+
+
+def registrations():
+    """Every `signal.signal(<sig>, self.safe_exit)` of FlowSampler.__init__ as (signal, conditional?):
+    conditional = the call sits under an `if` other than `if signal_handling:` (or in a loop/try-else
+    whose execution depends on one).  A loop over a literal tuple of signals is expanded.
+    -> (Coq list of reg, [(signal name, conditional, line)])"""
+    mod, _ = parse("nessai/flowsampler.py")
+    init = find_function(mod, "__init__", cls="FlowSampler")
+    names = {"signal.SIGTERM": "STERM", "signal.SIGINT": "SINT", "signal.SIGALRM": "SALRM"}
+    out = []
+
+    def walk(stmts, cond, loopvars):
+        for s in stmts:
+            if isinstance(s, ast.If):
+                plain = _norm(s.test) in ("signal_handling", "signal_handlingisTrue", "self.signal_handling")
+                walk(s.body, cond or not plain, loopvars)
+                walk(s.orelse, True, loopvars)
+            elif isinstance(s, ast.Try):
+                walk(s.body, cond, loopvars)
+                for h in s.handlers:
+                    walk(h.body, True, loopvars)
+                walk(s.orelse, cond, loopvars)
+                walk(s.finalbody, cond, loopvars)
+            elif isinstance(s, ast.For):
+                lv = dict(loopvars)
+                if isinstance(s.target, ast.Name) and isinstance(s.iter, (ast.Tuple, ast.List)):
+                    lv[s.target.id] = [_norm(e) for e in s.iter.elts]
+                else:
+                    lv = {k: v for k, v in lv.items()}
+                    cond = True if not isinstance(s.iter, (ast.Tuple, ast.List)) else cond
+                walk(s.body, cond, lv)
+            elif isinstance(s, (ast.With, ast.While)):
+                walk(s.body, True if isinstance(s, ast.While) else cond, loopvars)
+            else:
+                for n in ast.walk(s):
+                    if isinstance(n, ast.Call) and dotted(n.func) == "signal.signal" and len(n.args) == 2:
+                        if _norm(n.args[1]) != "self.safe_exit":
+                            continue
+                        a = _norm(n.args[0])
+                        sigs = loopvars.get(a, [a])
+                        for sg in sigs:
+                            if sg not in names:
+                                raise Declined(f"signal.signal called with `{sg}`")
+                            out.append((names[sg], cond, n.lineno))
+
+    walk(strip_doc(init.body), False, {})
+    coq = "[" + "; ".join(f"mkreg {sg} {'true' if c else 'false'}" for sg, c, _ in out) + "]"
+    return coq, out
+
+
+def stmt_index(relpath, cls, func):
+    """{lineno: normalised text of the innermost statement that covers the line} for a function:
+    `ast.unparse` of the statement, first line (header for compound statements)."""
+    mod, _ = parse(relpath)
+    fn = find_function(mod, func, cls=cls)
+    out = {}
+    nodes = sorted((n for n in ast.walk(fn) if isinstance(n, ast.stmt) and n is not fn), key=lambda n: n.lineno)
+    for n in nodes:  # later (inner) statements overwrite outer ones
+        hi = n.end_lineno
+        if isinstance(n, (ast.If, ast.While, ast.For, ast.With, ast.Try)):
+            hi = n.body[0].lineno - 1 if n.body else n.end_lineno
+            hi = max(hi, n.lineno)
+        for ln in range(n.lineno, hi + 1):
+            out[ln] = unparse(n).split("\n")[0]
+    return out
